@@ -43,6 +43,9 @@ pub struct Invocation {
     pub violation: Option<Violation>,
     /// is_writeable() samples: (value, active stream index or 99, input bytes read by the library at that moment)
     pub writeable_samples: Vec<(bool, usize, usize)>,
+    /// Reads issued while no stream is active (roles without input streams): (input bytes read by the library
+    /// after the call, outcome: 0 = Ok(0), 1 = ConnectionAborted, 2 = anything else).
+    pub idle_reads: Vec<(usize, u8)>,
     pub eof_then_data: bool,
 }
 
@@ -381,6 +384,41 @@ async fn h_read(req: &mut Req<'_>, st: &mut HState, len: usize) -> io::Result<us
     r
 }
 
+/// poll_read_vectored with 2..3 buffers: bytes are reported in buffer order, exactly the returned count.
+async fn h_readv(req: &mut Req<'_>, st: &mut HState) -> io::Result<usize> {
+    let lens = [st.range(1, 8), st.range(1, 8), st.range(0, 16)];
+    let mut b0 = vec![0u8; lens[0]];
+    let mut b1 = vec![0u8; lens[1]];
+    let mut b2 = vec![0u8; lens[2]];
+    st.ev("h_readv", (lens[0] + lens[1] + lens[2]) as u64, 0);
+    let r = poll_fn(|cx| {
+        let mut bufs = [io::IoSliceMut::new(&mut b0), io::IoSliceMut::new(&mut b1), io::IoSliceMut::new(&mut b2)];
+        let p = Pin::new(&mut *req).poll_read_vectored(cx, &mut bufs);
+        if p.is_pending() { st.sample_writeable(req); }
+        p
+    }).await;
+    match &r {
+        Ok(n) => {
+            let total = lens[0] + lens[1] + lens[2];
+            if *n > total {
+                st.fail(Violation::new("c09_read_count", "", format!("poll_read_vectored returned {n} for {total} bytes of buffers")));
+                return r;
+            }
+            let mut all = b0.clone();
+            all.extend_from_slice(&b1);
+            all.extend_from_slice(&b2);
+            st.record_read(*n, &all, total);
+            st.probe("vectored_read");
+        }
+        Err(e) => {
+            let k = kind_name(e);
+            st.with(|w, inv| inv.errors.push((k, "read_vectored".into(), w.read_pos)));
+        }
+    }
+    st.sample_writeable(req);
+    r
+}
+
 async fn h_fill(req: &mut Req<'_>, st: &mut HState) -> io::Result<usize> {
     st.ev("h_fill", 0, 0);
     let r = poll_fn(|cx| {
@@ -536,7 +574,10 @@ async fn handler_body(req: &mut Req<'_>, world: Shared, mode: HandlerMode) -> io
     let r = match r {
         Ok(s) => Ok(s),
         Err(e) => {
-            if st.propagate { Err(e) } else {
+            if st.propagate {
+                // handlers commonly add context: the kind is what the library may look at
+                if st.chance(1, 3) { st.probe("error_propagated_with_context"); Err(io::Error::new(e.kind(), format!("handler context: {e}"))) } else { Err(e) }
+            } else {
                 // a handler that swallows the error and returns its own status
                 let (s, name) = exit_status(&st);
                 st.with(|_, inv| inv.status = Some(name));
@@ -580,6 +621,20 @@ async fn handler_seq(req: &mut Req<'_>, st: &mut HState) -> io::Result<ExitStatu
         let w_write = if writes < 4 { 3 } else { 0 };
         let w_ret = if read_plan == 0 && can_read && !at_eof { 0 } else if read_plan == 1 { 2 } else { 4 };
         let w_probe = if readers { 3 } else { 0 };
+        // a role without input streams can still be read: end-of-file at once, or the abort if one is buffered
+        if st.streams.is_empty() && read_plan != 2 && st.chance(1, 4) {
+            let mut buf = [0u8; 4];
+            st.ev("h_idle_read", 0, 0);
+            let r = poll_fn(|cx| Pin::new(&mut *req).poll_read(cx, &mut buf)).await;
+            let code = match &r { Ok(0) => 0u8, Err(e) if e.kind() == io::ErrorKind::ConnectionAborted => 1, _ => 2 };
+            st.with(|w, inv| inv.idle_reads.push((w.read_pos, code)));
+            st.probe("read_without_input_stream");
+            if let Err(e) = r {
+                let k = kind_name(&e);
+                st.with(|w, inv| inv.errors.push((k, "read".into(), w.read_pos)));
+                return Err(e);
+            }
+        }
         // a read that is polled once and abandoned if not ready (timeout / select! / now_or_never in a real handler)
         let w_try = if can_read && read_plan != 2 { 1 } else { 0 };
         // after an abandoned read the request may still hold the output lock (kept "until a subsequent call wrote a
@@ -589,8 +644,12 @@ async fn handler_seq(req: &mut Req<'_>, st: &mut HState) -> io::Result<ExitStatu
         let ws = [w_read, w_fill, w_adv, w_write, w_ret.max(if w_read + w_fill + w_adv + w_write == 0 { 1 } else { 0 }), w_probe, w_try];
         match st.weighted(&ws) {
             0 => {
-                let len = match st.weighted(&[4, 1, 2, 2, 1]) { 0 => st.range(1, 64), 1 => 0, 2 => 1, 3 => st.range(64, 5000), _ => 70000 };
-                h_read(req, st, len).await?;
+                if st.chance(1, 8) {
+                    h_readv(req, st).await?;
+                } else {
+                    let len = match st.weighted(&[4, 1, 2, 2, 1]) { 0 => st.range(1, 64), 1 => 0, 2 => 1, 3 => st.range(64, 5000), _ => 70000 };
+                    h_read(req, st, len).await?;
+                }
             }
             1 => { h_fill(req, st).await?; }
             6 => {
@@ -974,6 +1033,16 @@ pub fn check_history_mode(out: &ConnOutcome, plan: &Plan, allow_abort_forms: boo
                 vfail!(&format!("{oracle_prefix}_handler_error"), "", "handler {i}: {op} failed with {kind} on a fault-free transport");
             }
         }
+        for &(at, code) in &inv.idle_reads {
+            let buffered_abort = rp.sm.abort.map_or(false, |a| a + 8 <= at);
+            if !faulted {
+                if buffered_abort {
+                    vcheck!(code == 1, "c11_abort_not_reported", "handler {i} (no input streams) read after the AbortRequest header at {:?} was received ({at} bytes read) but got {}", rp.sm.abort, if code == 0 { "end-of-file" } else { "another result" });
+                } else {
+                    vcheck!(code == 0, &format!("{oracle_prefix}_handler_input"), "handler {i} (no input streams): read returned {} instead of end-of-file", if code == 1 { "ConnectionAborted without an abort" } else { "an unexpected result" });
+                }
+            }
+        }
         // handler output records
         for (stream, data, n) in &inv.writes {
             vcheck!(*n == data.len(), "c10_write_count", "write returned {n} for {} accepted bytes", data.len());
@@ -1230,7 +1299,7 @@ fn first_begin(plan: &Plan, rp: &ReqPlan) -> usize {
 }
 
 
-pub const C09_PROBES: &[&str] = &["writeable_true_sampled", "writeable_false_sampled", "eof_observed", "filter_role"];
+pub const C09_PROBES: &[&str] = &["vectored_read", "writeable_true_sampled", "writeable_false_sampled", "eof_observed", "filter_role"];
 
 /// C09: async read interfaces and output gating.
 pub fn c09(cx: &mut Ctx) -> VResult {
@@ -1330,7 +1399,7 @@ pub fn c10(cx: &mut Ctx) -> VResult {
     Ok(())
 }
 
-pub const C11_PROBES: &[&str] = &["abort_seen_by_handler", "abort_swallowed_own_status", "abort_not_reached", "abort_during_params_async", "request_after_abort_served", "foreign_abort_inserted"];
+pub const C11_PROBES: &[&str] = &["read_without_input_stream", "error_propagated_with_context", "abort_seen_by_handler", "abort_swallowed_own_status", "abort_not_reached", "abort_during_params_async", "request_after_abort_served", "foreign_abort_inserted"];
 
 /// C11 (async part): abort in the stream phase.
 pub fn c11(cx: &mut Ctx) -> VResult {
